@@ -81,7 +81,7 @@ type State struct {
 	Overflow    []string
 	NoPanic     bool
 	NoModel     map[string]bool // Go-source models switched off by the harness (shared, never mutated in place)
-	PanicMsg    string // a Go panic raised while this state was being set up as one side of a fork
+	PanicMsg    string          // a Go panic raised while this state was being set up as one side of a fork
 	Depth       int
 	Reached     []string
 	Assumes     int
